@@ -57,7 +57,7 @@ Lemma cuped_regression_lemma :
 Proof.
   destruct Hc as [Hlc Hyc Hxc], Ht as [Hlt Hyt Hxt].
   pose proof (cnt_ge2 lc Hlc). pose proof (cnt_ge2 lt Hlt).
-  unfold rom_analyze_aggregates, agg_with_zero_div.
+  unfold rom_analyze_aggregates, agg_with_zero_div, agg_wrap.
   rewrite (agg_add_aggr_of lc lt Hlc Hlt), (covariate_coef_repr cfg _ Hp).
   assert (Hxb : agg_mean (aggr_of (lc ++ lt)) (cfg_numer_covariate cfg)
                 / agg_mean (aggr_of (lc ++ lt)) (cfg_denom_covariate cfg) = xbar_of cfg (lc ++ lt)).
